@@ -1,0 +1,6 @@
+//go:build !verif
+
+package core
+
+// verifObserveFileAccess is a no-op unless built with the `verif` tag.
+func verifObserveFileAccess(string, string) {}
